@@ -121,8 +121,8 @@ def job_curve(env, cfg):
 def select(env, cfg, prog, cid):
     ctx = discover(env, cfg)
     r = env.runner(cfg)
-    key = (id(r), r.starts)
-    if ctx["cur"] != (key, cid) or r.proc is None or r.proc.poll() is not None or r.ncases + 1 >= r.recycle:
+    key = r.epoch()
+    if ctx["cur"] != (key, cid):
         prog.call("ed_param_set", cid)
         ctx["cur"] = (key, cid)
         return 1
